@@ -209,9 +209,29 @@ fn gen_weights(r: &mut Rng, n: usize) -> (&'static str, Vec<f64>) {
     }
 }
 
-/// every partial sum of the weights, in any association, is exact
+/// every partial sum of the weights, in any association, is exact: all weights are integer
+/// multiples of one power of two 2^e and at most 2^(e+40), fewer than 4096 of them
 fn weights_exact(ws: &[f64]) -> bool {
-    ws.iter().all(|w| w.is_finite() && *w >= 0.0 && *w <= 1048576.0 && (w * 1024.0).fract() == 0.0) && ws.len() < 4096
+    // w = m * 2^k with m odd (k = exponent of the lowest set bit)
+    let low = |w: f64| -> i32 {
+        let b = w.to_bits();
+        let (m, e) = if (b >> 52) & 0x7ff == 0 { (b & ((1 << 52) - 1), -1074) } else { ((b & ((1 << 52) - 1)) | (1 << 52), ((b >> 52) & 0x7ff) as i32 - 1075) };
+        e + m.trailing_zeros() as i32
+    };
+    if ws.len() >= 4096 || !ws.iter().all(|w| w.is_finite() && *w >= 0.0) {
+        return false;
+    }
+    let nz: Vec<f64> = ws.iter().cloned().filter(|w| *w > 0.0).collect();
+    if nz.is_empty() {
+        return true;
+    }
+    let e = nz.iter().map(|w| low(*w)).min().unwrap();
+    // every weight < 2^(e+41): top exponent of w is floor(log2 w)
+    nz.iter().all(|w| {
+        let b = w.to_bits();
+        let top = if (b >> 52) & 0x7ff == 0 { -1074 + (63 - (b & ((1 << 52) - 1)).leading_zeros() as i32) } else { ((b >> 52) & 0x7ff) as i32 - 1023 };
+        top - e <= 40
+    })
 }
 
 fn json_f64s(xs: &[f64]) -> String {
@@ -340,21 +360,40 @@ fn pick_order(r: &mut Rng, max: u32) -> u32 {
     }
 }
 
+/// Tiny total weights (round 4): before the repair of `weighted_quantiles` (absolute epsilon in
+/// `approx::abs_diff_eq!`) HilbertCurve did not return when the total weight was of the order of
+/// f64::EPSILON or below (Proofs/WqNonTermination.v).  The family is part of every run: against
+/// the unrepaired code it yields hangs (= failing inputs).
 fn case_hilbert(r: &mut Rng, big: bool) -> Out {
     let dim = if r.chance(1, 2) { 2 } else { 3 };
-    let (pfam, pts) = gen_points(r, dim, big);
+    let tiny = r.chance(1, 25);
+    let (pfam, pts) = if tiny {
+        let n = r.range(3, 9) as usize;
+        ("tiny", (0..n).map(|_| [r.below(8) as f64, r.below(8) as f64, if dim == 3 { r.below(8) as f64 } else { 0.0 }]).collect::<Vec<_>>())
+    } else {
+        gen_points(r, dim, big)
+    };
     let n = pts.len();
-    let (wfam, ws) = gen_weights(r, n);
-    let part_count = r.range(1, n as i64 + 2) as usize;
+    let (wfam, ws) = if tiny {
+        // power-of-two scales keep the sums exact (full model compared); decimal ones do not
+        let (name, scale) = *r.pick(&[
+            ("tiny_2^-55", 2.0f64.powi(-55)), ("tiny_2^-60", 2.0f64.powi(-60)), ("tiny_2^-1000", 2.0f64.powi(-1000)),
+            ("tiny_subnormal", f64::from_bits(1)), ("tiny_1e-16", 1.0e-16), ("tiny_1e-17", 1.0e-17), ("tiny_1e-300", 1.0e-300),
+        ]);
+        (name, (0..n).map(|_| scale * (1 + r.below(9)) as f64).collect::<Vec<_>>())
+    } else {
+        gen_weights(r, n)
+    };
+    let part_count = if tiny { r.range(3, 8) as usize } else { r.range(1, n as i64 + 2) as usize };
     let max_order = if dim == 2 { 32 } else { 21 };
-    let order = pick_order(r, max_order);
+    let order = if tiny { r.range(1, 3) as u32 } else { pick_order(r, max_order) };
     let threads = *r.pick(&POOLS);
     // malformed stream (outside the contract; HilbertCurve does not check lengths, the model
     // follows its zips): weights / ids shorter or longer than the points
     let mut ws = ws;
     let mut plen = n;
     let mut malformed = false;
-    if r.chance(1, 15) {
+    if !tiny && r.chance(1, 15) {
         malformed = true;
         match r.below(4) {
             0 => ws.truncate(n.saturating_sub(1 + r.below(2) as usize)),
@@ -368,7 +407,7 @@ fn case_hilbert(r: &mut Rng, big: bool) -> Out {
 
     let _ = coupe::verif::drain();
     let (pts2, ws2, p02) = (pts.clone(), ws.clone(), p0.clone());
-    let res = guarded(threads, Duration::from_secs(20), move || {
+    let res = guarded(threads, Duration::from_secs(if tiny { 8 } else { 20 }), move || {
         let mut p = p02;
         let mut alg = coupe::HilbertCurve { part_count, order };
         let r = if dim == 2 {
